@@ -8,7 +8,7 @@ CHECKS = {
     'C10': ('four monitors on one stress workload (2-16 application threads x all thread-safe entry points x continuous uplink traffic x auto-flush, lock-level perturbation; tsan/asan/mon flavours): ThreadSanitizer reports in library code, contract monitor at every documented-lock accessor, history oracles (getter results of every receiver-written entity kind equal a state that existed during the call, entity invariants, each queued message returned exactly once), a lost-update oracle for read-modify-write commands with one writer per function, strict decode + sequence scan of the shared downlink stream; directed preemption (a command / the receiver / a getter paused at each of its scheduling points while the other side runs); container lockset monitor (Eraser over glib containers); reduced scenarios under valgrind helgrind',
             'TSan / helgrind ignore only the four volatile lifecycle flags; glib uninstrumented for TSan (container lockset monitor and helgrind cover it); schedules are sampled, plus one directed preemption per scenario step',
             'runtime monitoring: ThreadSanitizer + helgrind + lock-contract and container-lockset monitors + linearizability-style history oracles under stress and directed preemption'),
-    'C11': ('link-time lock monitor over a systematic cross product (every public function x argument class x mode, all 256 uplink types and field sweeps (every value of one data byte of valid feedback about configured equipment) on the receiver thread, both user queues driven over their bound, every rejected-configuration class, sys_reset) and concurrent stress: held-set empty at every return and whenever the receiver is back at the read callback; union lock-order graph observed while running must be acyclic; self-wait / wait-for cycle detection with watchdog',
+    'C11': ('link-time lock monitor over a systematic cross product (every public function x argument class x mode, all 256 uplink types and field sweeps (every value of one data byte of valid feedback about configured equipment) on the receiver thread, both user queues driven over their bound, every rejected-configuration class, sys_reset), a stop-race sweep (bidib_stop against the auto-flush thread / the receiver parked at scheduling point k by directed preemption: no thread exits holding a lock) and concurrent stress: held-set empty at every return and whenever the receiver is back at the read callback; union lock-order graph observed while running must be acyclic; self-wait / wait-for cycle detection with watchdog',
             'acyclicity of the observed order only; reader-preferring rwlocks (recursive read acquisition is not an edge); allocation-failure paths not driven',
             'runtime monitoring: lock-order graph, held-set balance and wait-for-cycle monitors over systematic + stress workloads'),
     'C12': ('hostile uplink streams from five generators (noise, corrupted valid traffic, grammar-generated CRC-valid packets with adversarial length/address/type/field values, field sweeps over valid feedback about configured equipment, delimiter-less runs of 255-4096 bytes) in debug and normal mode against generated configurations, with host commands issued in between; zero ASan/UBSan reports, normal exit, and after every stream a probe packet must be delivered; batches per process with re-run of the tail after a crash',
@@ -20,19 +20,19 @@ CHECKS = {
     'C17': ('memcheck V-bit probes (VALGRIND_GET_VBITS from the harness) of every API-meaningful field of every getter result for known, unknown and NULL ids; ASan keep / mutate / stop / re-read / free-once probe of kept results; field-by-field equality of bidib_get_state() with the single-entity getters at every snapshot',
             'gated fields probed only when their flag is set; padding never probed; valgrind 3.19 memcheck; gcc ASan/LSan',
             'runtime monitoring: valgrind memcheck V-bit probes + ASan/LSan + snapshot cross-check'),
-    'C15': ('model node tree (address = path of local addresses, lost interface takes its subtree): connectivity getters after start (incl. a table change during enumeration) and after each of 0-30 node-new/node-lost notices (incl. repeated ones), after an address swap followed by a second enumeration (sys_reset), one NODE_CHANGED_ACK(version) to the announcer per notice, a ping per board addressed to the model\'s current address or refused',
+    'C15': ('model node tree (address = path of local addresses, lost interface takes its subtree): connectivity getters after start (incl. a table change during enumeration, unknown nodes whose unique id is one byte off an absent configured board) and after each of 0-30 node-new/node-lost notices (incl. repeated ones), after an address swap followed by a second enumeration (sys_reset), one NODE_CHANGED_ACK(version) to the announcer per notice, a ping per board addressed to the model\'s current address or refused',
             'simulated bus node table updated alongside scripted notices; announcers of depth <= 2',
             'runtime monitoring: tree-model oracle over getter snapshots and decoded wire + ASan/UBSan'),
-    'C16': ('stop transcript vs. model per connected track output; link-time thread monitor (create/join exactly once, none alive after stop or failed start); heap and file-descriptor conservation over six identical sessions (ASan allocator statistics, LSan); idempotent stop/start (incl. the auto-flush period of the running session); probe session as session k vs. the same session in a fresh process (per-node transcripts, snapshots, return values)',
+    'C16': ('stop transcript vs. model per connected track output, also inside a failed start during which a configured track output logged on; link-time thread monitor (create/join exactly once, none alive after stop or failed start); heap and file-descriptor conservation over six identical sessions (ASan allocator statistics, LSan); idempotent stop/start (incl. the auto-flush period of the running session); probe session as session k vs. the same session in a fresh process (per-node transcripts, snapshots, return values)',
             'pthread_create/join interposed with ld --wrap; __sanitizer_get_current_allocated_bytes; decoded message lists compared per node',
             'runtime monitoring: lifecycle monitors (threads, heap, transcript, session equivalence) + ASan/LSan'),
-    'C19': ('per occupancy report of SecAck / non-SecAck boards the decoded wire at the next quiescent point without any flush step: exactly one mirror with identical number/payload (packets with several reports from several nodes, malformed last message), none for boards without feature 0x03>0 (absent boards, address reuse, re-login); stalled or budget-blocked board: mirrors owed and delivered in order exactly once after release',
+    'C19': ('per occupancy report of SecAck / non-SecAck boards the decoded wire at the next quiescent point without any flush step: exactly one mirror with identical number/payload (packets with several reports from several nodes, malformed last message), none for boards without feature 0x03>0 (absent boards, address reuse, re-login, an earlier session of the same process with the opposite SecAck setting); stalled or budget-blocked board: mirrors owed and delivered in order exactly once after release',
             'a report counts from the quiescent point after it was fed; known finding: position mirror lacks the address bytes',
             'runtime monitoring: per-event wire oracle at quiescent points + ASan/UBSan'),
     'C20': ('order constraints and multiset equality over the decoded downlink transcript of a start and of bidib_send_sys_reset: FEATURE_SET only to connected configured boards and before SYS_ENABLE, GO to every connected track output, then every configured initial point/signal/peripheral aspect and train function exactly once (C09 encoding), nothing for absent boards - also when the switch-on answer is lost / reports OFF and when a board is reported lost during start-up',
             'speed-0/all-zero CS_DRIVE and the library\'s own queries unconstrained; encoder of C09',
             'runtime monitoring: transcript oracle (order + multiset) over decoded wire + ASan/UBSan'),
-    'C14': ('generator emits configurations together with their abstract description: valid ones must be accepted and every enumeration getter and the initial snapshot must equal the description; each single-fault class of the statement (27 classes, duplicates against adjacent and non-adjacent elements, DCC addresses over the full 16 bits, identifiers with printf conversions) applied at sampled applicable positions must give return value 1',
+    'C14': ('generator emits configurations together with their abstract description: valid ones must be accepted and every enumeration getter and the initial snapshot must equal the description; each single-fault class of the statement (28 classes sampled stratified by variant shape, calibration as list of wrong length / scalar / empty, duplicates against adjacent and non-adjacent elements, DCC addresses over the full 16 bits, identifiers with printf conversions) applied at sampled applicable positions must give return value 1',
             'documented layout = key order/optional parts of example/config and the test configs; cross-kind collisions not generated',
             'runtime monitoring: description-vs-getter oracle over generated configurations and single-fault mutations + ASan/UBSan + lock monitor'),
     'C07': ('reference state fold over the recorded uplink/downlink history compared field by field with bidib_get_state() and every single-entity getter at sampled snapshots; generated configurations x node trees x histories of state-bearing messages with full value ranges (1-4 messages per packet, arbitrary sequence numbers, repeated reports, bad-CRC packets without effect, feedback during start-up), interleaved with drive / DCC-accessory commands',
